@@ -740,8 +740,11 @@ class Array(Tuple):
         self.original_value = list(values)
 
     def get_sql(self, ctx: SqlContext) -> str:
-        if ctx.parameterizer is None or not ctx.parameterizer.should_parameterize(
-            self.original_value
+        # an array holding terms (fields, expressions) is rendered element by element: only plain data may be bound
+        if (
+            ctx.parameterizer is None
+            or not ctx.parameterizer.should_parameterize(self.original_value)
+            or any(isinstance(value, Node) for value in self.original_value)
         ):
             values = ",".join(term.get_sql(ctx) for term in self.values)
 
@@ -752,7 +755,7 @@ class Array(Tuple):
             return format_alias_sql(sql, self.alias, ctx)
 
         param = ctx.parameterizer.create_param(self.original_value)
-        return param.get_sql(ctx)
+        return format_alias_sql(param.get_sql(ctx), self.alias, ctx)
 
 
 class Bracket(Tuple):
